@@ -296,6 +296,7 @@ class C09(QProp):
     """Theorems (Props/C09.lean): all ordered pairs of K/°C/°F with any SI prefixes and every magnitude convert through kelvin by the defining formulas; chains of any length compose; exactly invertible; an offset scale not alone with power one (source or target) is refused, products/quotients with one are refused. Correspondence: all pairs incl. prefixed spellings, chains, compound uses."""
     id = "C09"
     module = "Anything.Props.C09"
+    extra_modules = ["Anything.Props.C09Query"]
     trusted = ["Spec.SI.pointToKelvin over the extracted affine parameters"]
 
     def cases(self, rng, tier):
